@@ -1234,6 +1234,38 @@ def generate_console(listener_mod, console_mod):
     return "\n".join(out) + "\nend Gen.Console\n", []
 
 
+def generate_problem_ctors():
+    """statement trees of the constructors of the shipped problem classes (what metadata they declare)"""
+    from iOpt.problems.rastrigin import Rastrigin
+    from iOpt.problems.xsquared import XSquared
+    from iOpt.problems.hill import Hill
+    from iOpt.problems.shekel import Shekel
+    from iOpt.problems.shekel4 import Shekel4
+    from iOpt.problems.stronginC3 import StronginC3
+    from iOpt.problems.grishagin import Grishagin
+    from iOpt.problems.GKLS import GKLS
+    from iOpt.problem import Problem
+    out = ["-- GENERATED by harness/src2lean.py from the SOURCE TEXT of iOpt/problem.py and iOpt/problems/*.py under /repo; do not edit.\n"
+           "import IOptGen.ProcessSrc\n"
+           "/-!\nThe constructors of the shipped problem classes as statement trees (`Gen.ProcSrc.Stmt`): which metadata a problem declares\n"
+           "(dimension, names, bounds, objective / constraint counts, known optimum) as a function of its constructor arguments.\n-/\n"
+           "namespace Gen.ProblemCtors\nopen Gen.ProcSrc\n"]
+    for cls in (Problem, Rastrigin, XSquared, Hill, Shekel, Shekel4, StronginC3, Grishagin, GKLS):
+        fn = cls.__dict__.get("__init__")
+        if fn is None:
+            continue
+        fa = func_ast(fn)
+        nm = cls.__name__[0].lower() + cls.__name__[1:] + "_init"
+        params = [a.arg for a in fa.args.args]
+        defaults = [ast.unparse(d) for d in fa.args.defaults]
+        out.append(f"/-- parameters of `{cls.__name__}.__init__` -/\ndef {nm}Params : List String := "
+                   + "[" + ", ".join(_lean_str(x) for x in params) + "]\n")
+        out.append(f"/-- default values of the trailing parameters of `{cls.__name__}.__init__` (source text) -/\ndef {nm}Defaults : List String := "
+                   + "[" + ", ".join(_lean_str(x) for x in defaults) + "]\n")
+        out.append(f"/-- body of `{cls.__name__}.__init__` -/\ndef {nm} : List Stmt :=\n  " + _stmts_to_lean(_nodoc(fa.body), 2) + "\n")
+    return "\n".join(out) + "\nend Gen.ProblemCtors\n", []
+
+
 def wiring_classes():
     from iOpt.solver import Solver
     from iOpt.method.process import Process
@@ -1553,6 +1585,8 @@ if __name__ == "__main__":
     if "--proc" in sys.argv:
         from iOpt.method.process import Process
         text, errors = generate_process(Process)
+    if "--pctors" in sys.argv:
+        text, errors = generate_problem_ctors()
     if "--console" in sys.argv:
         import iOpt.method.listener as lm
         import iOpt.output_system.console.console_output as com
